@@ -87,7 +87,6 @@ structure Seen where
 inductive Restart
   | clean            -- Close, then Open
   | kill             -- process kill: every completed write(2) is in the files
-  | torn             -- crash during the last append to fields.idxl: a prefix of that record is in the file
   | inSnapshot (point : String)  -- crash inside the fields.idx rewrite of a clean close
   deriving DecidableEq, Repr
 
@@ -98,6 +97,11 @@ inductive Step10
   | drop (m : String) (ok : Bool) (after : Seen)
   /-- restart; `opened` = the shard opened again -/
   | restart (kind : Restart) (opened : Bool) (after : Seen)
+  /-- `Shard.WritePoints batch` crashed in the middle of the append of its record
+      to fields.idxl (never acknowledged); then restart -/
+  | tornWrite (batch : List Point) (opened : Bool) (after : Seen)
+  /-- `Shard.DeleteMeasurement m` crashed in the middle of that append; then restart -/
+  | tornDrop (m : String) (opened : Bool) (after : Seen)
   /-- schema dump / read / snapshot: operations that must not change anything -/
   | look (after : Seen)
   deriving Repr
